@@ -61,6 +61,26 @@ CHECKS = {
              "in tools/props/c05.py, the harness' walk over Bodies.",
         technique="TLA+ static semantics (TLC enumeration) + spec-to-implementation replay",
         ref="DESIGN.md section 4 C05"),
+    "C07": dict(
+        engine="Pipeline",
+        category="model_checking",
+        text="Pipeline.tla is the stage machine of one compilation (front end -> inference -> "
+             "diagnostics | comptime -> no-entry | object -> linked); the gate is the guard of its "
+             "actions (Report needs an error, Comptime needs none; an error attached to an "
+             "expression flags something unsafe; nothing is flagged without an error) plus the "
+             "Gate invariant, model-checked by TLC. Every compilation of a corpus program or one "
+             "of its single-token mutants (own process, unsafe tracking on, linking requested) "
+             "is recorded as a stage trace and validated by TracePipeline.tla: a record is "
+             "accepted only as a behaviour of the machine that ends in a terminal state "
+             "satisfying the gate. Records in which the compiler reached a verdict are judged "
+             "here (crashes before a verdict are C06's).",
+        note="quick: 1 003 corpus programs + 1 200 single-token mutants + the regression inputs "
+             "in tools/c06_inputs; thorough: 30 000 mutants. The spec is a small stage machine; "
+             "the exploration is generator-driven (said in DESIGN.md section 7). Known findings "
+             "F07a-c. Trusted: TLC, the harness' staging of crates/capy's main.rs through the "
+             "library API, gcc as linker.",
+        technique="TLA+ stage machine (TLC) + trace validation of recorded compilations",
+        ref="DESIGN.md section 4 C07"),
     "C08": dict(
         engine="BV/Arith",
         category="model_checking",
@@ -210,6 +230,25 @@ CHECKS = {
              "(cfg capy_verif). Trusted: TLC, the harness' term -> Ty construction, gcc.",
         technique="TLA+ trace validation of the exhaustively recorded layout table (TLC)",
         ref="DESIGN.md section 4 C17"),
+    "C21": dict(
+        engine="Repro",
+        category="model_checking",
+        text="Repro.tla: a history of compilations is a behaviour iff every input (the set of "
+             "files with their contents and the options) keeps the outcome - object hash, rendered "
+             "diagnostics - of its first compilation; Compile(i, o) is enabled only if i was never "
+             "compiled or was compiled with outcome o. The recorded history compiles every input "
+             "in three fresh processes (address-space randomisation on: interned types are hashed "
+             "by address), once after an unrelated program was compiled to an object in the same "
+             "process (process-global tables LAYOUTS / FINAL_TYS / type names) and, for programs "
+             "of several files, with the other files registered in reverse and in forward order "
+             "before the import work-list finds them; TLC validates the history.",
+        note="quick: 28 inputs (valid, several-file and token-mutated invalid programs), 126 "
+             "compilations; thorough: 320 inputs. Diagnostics of the re-ordered variants are "
+             "compared as multisets plus, when equal, in order. The TLA+ content is one history "
+             "variable (said in DESIGN.md). Trusted: TLC, sha256 of the object bytes, the "
+             "harness' warm-up compile in the same process.",
+        technique="TLA+ history machine + trace validation of recorded compilation histories",
+        ref="DESIGN.md section 4 C21"),
     "C22": dict(
         engine="Lexer",
         category="model_checking",
